@@ -465,6 +465,9 @@ def _set_allocations_for_consumer(req, schema):
         data_util.update_consumers([consumer], {consumer_uuid: request_attr})
 
         alloc_obj.replace_all(ctx, allocation_objects)
+        if created_new_consumer:
+            data_util.delete_new_consumers_without_allocations(
+                ctx, [consumer])
         LOG.debug("Successfully wrote allocations %s", allocation_objects)
 
     def _create_allocations():
@@ -579,6 +582,8 @@ def set_allocations(req):
         data_util.update_consumers(consumers.values(), requested_attrs)
 
         alloc_obj.replace_all(ctx, allocations)
+        data_util.delete_new_consumers_without_allocations(
+            ctx, new_consumers_created)
         LOG.debug("Successfully wrote allocations %s", allocations)
 
     def _create_allocations():
